@@ -367,6 +367,26 @@ fn ranges(acc: &mut Acc, tier: Tier) {
         }
         let want = strict_range(s);
         a.nontrivial(fnv(s.as_bytes()));
+        // the same text through the adapter's call site (Range header -> GetObjectInput::range), for the shorter strings
+        if s.len() <= "bytes=".len() + 4 || !s.starts_with("bytes=") || s.len() > 20 {
+            use crate::svc::*;
+            a.eval();
+            let (svc, log) = SvcCfg::default().build();
+            let out = call(&svc, &Req::new("GET", "/bkt/k").header("host", "s3.example.com").header("range", s), body_one_frame(b""));
+            let calls = backend_calls(&log);
+            let seen = calls.iter().find(|c| c.op == "GetObject").and_then(|c| c.input.clone().downcast::<s3s::dto::GetObjectInput>().ok()).map(|i| i.range);
+            let ok = match (&want, &seen) {
+                (Some(r), Some(Some(g))) => r == g,
+                (Some(_), _) => false,
+                // text outside the grammar: refused, or at least never turned into a range
+                (None, Some(Some(_))) => false,
+                (None, _) => true,
+            };
+            a.outcome(if ok { "range through the adapter: agrees" } else { "range through the adapter: DIFFERS" });
+            if !ok {
+                a.fail("C14/range/through-the-adapter", s.len() as u64, id(), format!("Range: {s} denotes {want:?}; the backend received {seen:?} ({})", out.verdict()), json!({"text": s}));
+            }
+        }
         a.outcome(match (&want, &got) {
             (Some(_), Some(_)) => "range text: valid, accepted",
             (None, None) => "range text: invalid, refused",
@@ -395,6 +415,7 @@ fn copy_sources(acc: &mut Acc) {
     keys.push("k".repeat(1024));
     let versions = [None, Some("v1"), Some("a=b"), Some("a&b c"), Some("é")];
     let buckets = ["src-bkt", "a.b.c", "abc"];
+    let mut adapter: Option<(s3s::service::S3Service, crate::svc::Log)> = None;
     for bucket in buckets {
         for key in &keys {
             for version in versions {
@@ -421,6 +442,20 @@ fn copy_sources(acc: &mut Acc) {
                         hdr.push_str(&format!("?versionId={}", uri_encode(v, true)));
                     }
                     acc.nontrivial(fnv(hdr.as_bytes()));
+                    // the same header through the adapter's call site (x-amz-copy-source -> CopyObjectInput::copy_source)
+                    {
+                        use crate::svc::*;
+                        acc.eval();
+                        let (svc, log) = adapter.get_or_insert_with(|| SvcCfg::default().build());
+                        log.lock().unwrap().clear();
+                        let out = call(svc, &Req::new("PUT", "/dst/k").header("host", "s3.example.com").header("x-amz-copy-source", &hdr), body_one_frame(b""));
+                        let got = backend_calls(log).iter().find(|c| c.op == "CopyObject").and_then(|c| c.input.clone().downcast::<s3s::dto::CopyObjectInput>().ok()).map(|i| i.copy_source.clone());
+                        let ok = matches!(&got, Some(CopySource::Bucket { bucket: b, key: k, version_id: v }) if &**b == bucket && &**k == key.as_str() && v.as_deref() == version);
+                        acc.outcome(if ok { "copy-source through the adapter: same" } else { "copy-source through the adapter: DIFFERENT" });
+                        if !ok {
+                            acc.fail("C14/copy-source/through-the-adapter", hdr.len() as u64, id(), format!("x-amz-copy-source: {hdr} names ({bucket:?},{key:?},{version:?}); the backend received {got:?} ({})", out.verdict()), json!({"header": hdr}));
+                        }
+                    }
                     let got = std::panic::catch_unwind(|| CopySource::parse(&hdr));
                     let Ok(got) = got else {
                         acc.fail("C14/copy-source/parse-panics", 0, id(), format!("parse panicked on {hdr:?}"), json!({}));
@@ -482,10 +517,84 @@ fn copy_sources(acc: &mut Acc) {
 
 // ------------------------------------------------------------------ content types
 
+const MIME_TYPES: [&str; 5] = ["text", "application", "image", "x-a", "*"];
+const MIME_SUBS: [&str; 5] = ["plain", "octet-stream", "svg+xml", "vnd.a.b-c", "*"];
+const MIME_PARAMS: [&str; 6] = ["", "; charset=utf-8", ";charset=UTF-8", "; a=\"b c\"", "; a=b; c=d", "; boundary=----x"];
+
+fn mime_params_denoted(p: &str) -> Vec<(&'static str, &'static str)> {
+    match p {
+        "" => vec![],
+        "; charset=utf-8" => vec![("charset", "utf-8")],
+        ";charset=UTF-8" => vec![("charset", "utf-8")], // the charset value is case-insensitive (RFC 9110 8.3.2)
+        "; a=\"b c\"" => vec![("a", "b c")],
+        "; a=b; c=d" => vec![("a", "b"), ("c", "d")],
+        _ => vec![("boundary", "----x")],
+    }
+}
+
+fn mime_denotes(m: &s3s::dto::ContentType, t: &str, s: &str, p: &str) -> bool {
+    let got: Vec<(String, String)> = m.params().map(|(k, v)| (k.as_str().to_ascii_lowercase(), if k.as_str().eq_ignore_ascii_case("charset") { v.as_str().to_ascii_lowercase() } else { v.as_str().to_owned() })).collect();
+    m.essence_str().eq_ignore_ascii_case(&format!("{t}/{s}")) && got.iter().map(|(k, v)| (k.as_str(), v.as_str())).collect::<Vec<_>>() == mime_params_denoted(p)
+}
+
+/// The same grid through the adapter's own call sites: a backend returning the content type from GetObject and HeadObject
+/// (typed member -> `Content-Type` response header) and a client sending it with PutObject (request header -> typed member).
+fn mimes_through_the_adapter(acc: &mut Acc) {
+    use crate::svc::*;
+    use s3s::dto::{GetObjectOutput, HeadObjectOutput, PutObjectInput};
+    use s3s::{S3Response, S3Result};
+    for t in MIME_TYPES {
+        for s in MIME_SUBS {
+            for p in MIME_PARAMS {
+                let text = format!("{t}/{s}{p}");
+                let Ok(m) = text.parse::<s3s::dto::ContentType>() else { continue };
+                let id = || format!("mime-adapter/{text}");
+                if !acc.selected(&id) {
+                    continue;
+                }
+                // (1) output member -> response header
+                let mm = m.clone();
+                let script: Script = std::sync::Arc::new(move |op, _input| {
+                    let mm = mm.clone();
+                    Box::pin(async move {
+                        let out: AnyBox = match op {
+                            "GetObject" => Box::new(Ok(S3Response::new(GetObjectOutput { content_type: Some(mm), ..Default::default() })) as S3Result<S3Response<GetObjectOutput>>),
+                            "HeadObject" => Box::new(Ok(S3Response::new(HeadObjectOutput { content_type: Some(mm), ..Default::default() })) as S3Result<S3Response<HeadObjectOutput>>),
+                            _ => return None,
+                        };
+                        Some(out)
+                    })
+                });
+                let (svc, log) = SvcCfg { script: Some(script), ..Default::default() }.build();
+                for method in ["GET", "HEAD"] {
+                    acc.eval();
+                    let out = call(&svc, &Req::new(method, "/bkt/k").header("host", "s3.example.com"), body_one_frame(b""));
+                    let hdrs: Vec<String> = out.resp().map(|r| r.headers.get_all("content-type").iter().map(|v| String::from_utf8_lossy(v.as_bytes()).into_owned()).collect()).unwrap_or_default();
+                    let ok = hdrs.len() == 1 && hdrs[0].parse::<s3s::dto::ContentType>().is_ok_and(|h| mime_denotes(&h, t, s, p));
+                    acc.outcome(if ok { "mime through the adapter (response header): denotes the same" } else { "mime through the adapter (response header): DIFFERENT" });
+                    if !ok {
+                        acc.fail("C14/content-type/response-header-denotes-another-type", 0, id(), format!("the backend returned content type {text:?} from {method}; the response carries Content-Type {hdrs:?} ({})", out.verdict()), json!({"method": method}));
+                    }
+                }
+                // (2) request header -> input member
+                acc.eval();
+                let out = call(&svc, &Req::new("PUT", "/bkt/k").header("host", "s3.example.com").header("content-type", &text).header("content-length", "1"), body_one_frame(b"x"));
+                let calls = backend_calls(&log);
+                let got = calls.iter().find(|c| c.op == "PutObject").and_then(|c| c.input.clone().downcast::<PutObjectInput>().ok()).and_then(|i| i.content_type.clone());
+                let ok = got.as_ref().is_some_and(|g| mime_denotes(g, t, s, p));
+                acc.outcome(if ok { "mime through the adapter (request header): denotes the same" } else { "mime through the adapter (request header): DIFFERENT" });
+                if !ok {
+                    acc.fail("C14/content-type/request-header-decoded-to-another-type", 0, id(), format!("Content-Type: {text} arrived at the backend as {:?} ({})", got.map(|g| g.to_string()), out.verdict()), json!({}));
+                }
+            }
+        }
+    }
+}
+
 fn mimes(acc: &mut Acc) {
-    let types = ["text", "application", "image", "x-a", "*"];
-    let subs = ["plain", "octet-stream", "svg+xml", "vnd.a.b-c", "*"];
-    let params = ["", "; charset=utf-8", ";charset=UTF-8", "; a=\"b c\"", "; a=b; c=d", "; boundary=----x"];
+    let types = MIME_TYPES;
+    let subs = MIME_SUBS;
+    let params = MIME_PARAMS;
     for t in types {
         for s in subs {
             for p in params {
@@ -547,9 +656,10 @@ pub fn run(ctx: &Ctx) -> (Acc, Report) {
     ranges(&mut acc, ctx.tier);
     copy_sources(&mut acc);
     mimes(&mut acc);
+    mimes_through_the_adapter(&mut acc);
     let rep = Report {
         level: "exploration",
-        rule: "timestamps: full product of boundary fields (9 years x 3 months x valid days of {1,28,29,30,31} x 3 hours x 2 minutes x 2 seconds x 3 millisecond values x 8 (thorough 12) UTC offsets) parsed from RFC 3339 - and built as the same instant from a time::OffsetDateTime carrying that offset and from a SystemTime - and re-emitted in all 3 formats; ranges: all (first,last,suffix,length) over 0..16 (thorough 0..24) and 9 boundary values incl. 2^63-1, every string bytes= + <=6 (thorough 7) symbols over {0,1,9,-,',',' ',+,a}, prefix spellings and 2^63/2^64 boundaries; copy sources: 3 buckets x 22 keys x 5 version ids, in 5 client spellings (segments escaped with '/' kept, everything escaped incl. the separator, each with/without leading slash, every byte escaped) and as the library encodes them; content types: 5x5x6 grammar product + 11 malformed. Oracles: proleptic-Gregorian arithmetic cross-checked per instant with aws-smithy-types, RFC 9110 single-range grammar and interval function, RFC 3986 percent codec. Distinct by text.".into(),
+        rule: "timestamps: full product of boundary fields (9 years x 3 months x valid days of {1,28,29,30,31} x 3 hours x 2 minutes x 2 seconds x 3 millisecond values x 8 (thorough 12) UTC offsets) parsed from RFC 3339 - and built as the same instant from a time::OffsetDateTime carrying that offset and from a SystemTime - and re-emitted in all 3 formats; ranges: all (first,last,suffix,length) over 0..16 (thorough 0..24) and 9 boundary values incl. 2^63-1, every string bytes= + <=6 (thorough 7) symbols over {0,1,9,-,',',' ',+,a}, prefix spellings and 2^63/2^64 boundaries; copy sources: 3 buckets x 22 keys x 5 version ids, in 5 client spellings (segments escaped with '/' kept, everything escaped incl. the separator, each with/without leading slash, every byte escaped) and as the library encodes them; content types: 5x5x6 grammar product + 11 malformed, judged on type, subtype, suffix and parameter list, through the library type and through the adapter's own call sites (typed output member -> Content-Type header of GetObject and HeadObject; Content-Type request header -> PutObject's typed member). Range texts of up to 4 symbols and the boundary spellings, and every copy-source spelling, also travel through the adapter's own call sites (Range header -> GetObject's typed member, x-amz-copy-source -> CopyObject's). Oracles: proleptic-Gregorian arithmetic cross-checked per instant with aws-smithy-types, RFC 9110 single-range grammar and interval function, RFC 3986 percent codec. Distinct by text.".into(),
         exhaustive: true,
         extra: json!({}),
         assumptions: vec!["range strings with lenient list syntax (blanks, empty elements), a non-lower-case unit, or a suffix length >= 2^63 are recorded, not judged".into()],
